@@ -27,6 +27,11 @@ def run(ctx, prefixes):
         {"h": [act("headers_open", 1), act("cont", 1), act("data", 1, 100, es=True)]},
         {"h": [act("headers_open", 1), act("cont", 1), act("data", 1, 100, es=True)]},
         {"h": [act("data", 1, 10, pad=7), act("data", 3, 0, pad=7)]},
+        # header blocks larger than a frame, with and without priority fields on the HEADERS frame; PUSH_PROMISE, PING,
+        # RST_STREAM codes and GOAWAY in one schedule
+        {"h": [act("headers_open", 1, n=1, pad=1), act("cont", 1), act("headers_open", 3, n=1, pad=0), act("cont", 3), act("data", 1, 100, es=True)]},
+        {"h": [act("headers", 1, pad=1), act("prio", 3), act("push", 1, n=2), act("ping", 0, n=1), act("headers_open", 3, n=1, pad=1, es=True), act("cont", 3),
+               act("rst", 1, n=2), act("ping", 0, n=2), act("goaway")]},
     ]
     trace = os.path.join(ctx.work, "h2.ndjson")
     out = ctx.run_vh(binp, ["h2", "--arg", "trace=" + trace], cases=cases, timeout=3000)
@@ -56,7 +61,7 @@ def run(ctx, prefixes):
                 start -= 1
             off = json.loads(lines[hwm]) if hwm < len(lines) else {}
             # attribute the rejection: header / reset events are fidelity (C10), credit is flow control (C09)
-            owner = {"a_credit": ("C09",), "b_recv": ("C10",) if off.get("t") in ("H", "R") else ("C09", "C10")}.get(off.get("ev"), ("C09", "C10"))
+            owner = {"a_credit": ("C09",), "b_ping": ("C10",), "b_goaway": ("C10",), "b_recv": ("C10",) if off.get("t") in ("H", "R", "PP") else ("C09", "C10")}.get(off.get("ev"), ("C09", "C10"))
             detail = {"matched_prefix": hwm, "of": total, "scenario_so_far": lines[max(0, start - 1):hwm], "offending": lines[hwm:hwm + 2], "tlc": tout[-600:]}
             if ctx.pid in owner:
                 ctx.violation("%s:trace-rejected:%s" % (ctx.pid, off.get("ev", "?") + (":" + off.get("t", "") if off.get("t") else "")), detail)
